@@ -32,8 +32,11 @@ TNext == /\ Step("Next") /\ UNCHANGED <<lists, exp>> /\ Conc
          /\ IF "skipped" \in DOMAIN Ev
               THEN pos' = pos /\ bad' = Note(bad, First(<< <<ExpAt(exp, pos) = 0, "C18:merge iterator ended early">> >>), "BAD")
               ELSE pos' = pos + 1 /\ Judge(<<>>)
+(* a panic raised by a legal call sequence is behaviour of the real code (driver: guarded()) *)
+TPanic == /\ l <= N /\ Ev.e = "Panic" /\ l' = l + 1 /\ UNCHANGED mvars
+          /\ bad' = Note(bad, "C18:the call panicked: " \o Ev.msg \o " (" \o Ev.where \o ")", "BAD")
 TDone == l = N + 1 /\ UNCHANGED tvars
-TTNext == TReset \/ TSeekFirst \/ TSeek \/ TNext \/ TDone
+TTNext == TReset \/ TSeekFirst \/ TSeek \/ TNext \/ TPanic \/ TDone
 TSpec == TInit /\ [][TTNext]_tvars
 Good == bad = ""
 =============================================================================
